@@ -1,2 +1,7 @@
 import TransportVerif.Props.C12
-#print axioms TV.Props.C12.placeholder
+#print axioms TV.Props.C12.count_exact
+#print axioms TV.Props.C12.socket_closed_iff
+#print axioms TV.Props.C12.accept_fails_after_close
+#print axioms TV.Props.C12.unaccepted_discarded
+#print axioms TV.Props.C12.no_new_conn_after_close
+#print axioms TV.Props.C12.no_close_stuck
